@@ -13,7 +13,7 @@ LEVEL_TEXT = (
     " containment predicate under an error return, or replaced by the result of the matching remover, and every statement field"
     " goes through the recursive call; the statement kinds the IR lifting cannot handle are eliminated for templates and"
     " rejected for functions; the containment traversal visits every child; input/output binding uses declaration order;"
-    " named inputs keep their operator; `_` targets consume their value; the whole pipeline (27 stage outcomes x 4 function kinds) and the anonymous-component expansion (positional / named / permuted / faulty calls, loop context, statement position) are evaluated on table worlds."
+    " named inputs keep their operator; `_` targets consume their value; the whole pipeline (27 stage outcomes x 4 function kinds) and the anonymous-component expansion (positional / named / permuted / faulty calls, loop context, statement position) are evaluated on table worlds. An anonymous call on the right of an assignment is evaluated through the statement remover: the output is assigned with the operator written."
 )
 NOT_DECIDED = "equality of the findings with those of the hand-written expansion."
 TRUSTED = ["syn parser", "enum definitions read from the source", "alias closure of the flow analysis is a may-analysis (it can miss a gap, it cannot invent one)"]
